@@ -43,9 +43,10 @@ struct C19 : Scenario {
             p.setd("angle", r.uniform(0.01, 0.5)); p.setd("frf", r.loguniform(1e8, 3e9));
             p.setd("revpart", r.loguniform(1e-3, 0.5)); p.setd("vrf", r.loguniform(1e5, 5e6)); p.setd("v0frac", r.uniform(0, 0.5));
             p.seti("napply", r.range(1, 50));
-            p.setd("phasespread", r.chance(0.6) ? r.loguniform(1e-5, 1e-2) : 0);
+            // radians; a quarter of the cases reach phases beyond +-pi (several hundred degrees of modulation or jitter are legal inputs)
+            p.setd("phasespread", r.chance(0.6) ? (r.chance(0.25) ? r.loguniform(1e-2, 4) : r.loguniform(1e-5, 1e-2)) : 0);
             p.setd("amplspread", r.chance(0.6) ? r.loguniform(1e-5, 1e-2) : 0);
-            p.setd("modampl", r.chance(0.6) ? r.loguniform(1e-4, 5e-2) : 0);
+            p.setd("modampl", r.chance(0.6) ? (r.chance(0.25) ? r.loguniform(5e-2, 10) : r.loguniform(1e-4, 5e-2)) : 0);
             p.setd("modstep", r.loguniform(1e-3, 0.3));
             p.setu("dseed", r.u64());
             return p;
@@ -125,6 +126,38 @@ struct C19 : Scenario {
             if (past.size() != 1) { o.fail("C19.one_record_per_apply", "apply #" + std::to_string(k) + " produced " + std::to_string(past.size()) + " records"); break; }
             if (!zero) st->kick(past[0][0], past[0][1]);
             st->apply();
+            // independent model of "the phase and amplitude used": the displacement field the dynamic map holds after apply()
+            // must be the RF model evaluated (in double) at the recorded pair -- linear: ampl*tan(angle)*((x0-x) + (phi_s-phase)/(k*dq)),
+            // sinusoidal: T_rev-part*(-ampl*V*sin(k*q+phase)+V0)/(dE per cell); this does not go through RFKickMap::_calcKick
+            if (!zero) {
+                const double phase = past[0][0], ampl = past[0][1];
+                const auto ax0 = in2->getAxis(0), ax1 = in2->getAxis(1);
+                const double kq = ax0->scale("Meter") / 299792458.0 * (double)frf * 6.283185307179586476925;
+                const float* f = dyn->getForce();
+                double worst = 0; unsigned wx = 0; double wexp = 0, wtol = 0;
+                for (unsigned x = 0; x < n; x++) {
+                    double expct, tol;
+                    if (linear) {
+                        double t = std::tan((double)angle);
+                        double a = (double)ax0->zerobin() - x, b = (0.0 - phase) / kq / ax0->delta();
+                        expct = ampl * t * (a + b);
+                        tol = 4e-6 * (std::fabs(ampl * t * a) + std::fabs(ampl * t * b)) + 1e-6;
+                    } else {
+                        double arg = (double)ax0->at(x) * kq + phase;
+                        double amp_cells = revpart * ampl * (double)(float)vrf / ax1->delta() / ax1->scale("ElectronVolt");
+                        expct = revpart * (-ampl * (double)(float)vrf * std::sin(arg) + (double)(float)v0) / ax1->delta() / ax1->scale("ElectronVolt");
+                        tol = std::fabs(amp_cells) * (8 * 1.2e-7 * (std::fabs(arg) + 1) + 4e-6) + 4e-6 * std::fabs(expct) + 1e-6;
+                    }
+                    double dev = std::fabs((double)f[x] - expct) / tol;
+                    if (dev > worst || std::isnan((double)f[x])) { worst = std::isnan((double)f[x]) ? 1e300 : dev; wx = x; wexp = expct; wtol = tol; }
+                }
+                o.checks++;
+                if (worst > 1) {
+                    o.fail("C19.applied_is_rf_model", "application #" + std::to_string(k) + " (" + (linear ? "linear" : "sinusoidal") + " RF): the displacement field in use at x=" + std::to_string(wx) + " is " + fmt_g(f[wx], 9) +
+                           " cells but the RF model at the recorded (phase " + fmt_g(phase, 9) + ", amplitude " + fmt_g(ampl, 9) + ") gives " + fmt_g(wexp, 9) + " (tolerance " + fmt_g(wtol, 3) + ")");
+                    break;
+                }
+            }
             size_t where = 0;
             if (!same_bits(out1->getData(), out2->getData(), (size_t)n * n, &where)) {
                 float a = out1->getData()[where], b = out2->getData()[where];
